@@ -14,7 +14,7 @@ Traces == JsonDeserialize(IOEnv.TRACE_FILE)
 VARIABLES tid, l, verdict
 T == Traces[tid]
 ToSet(s) == {s[i] : i \in DOMAIN s}
-TInit == Init /\ tid \in 1..Len(Traces) /\ l = 1 /\ verdict = "run"
+TInit == Init /\ tid \in 1..Len(Traces) /\ ds = Traces[tid].ds /\ l = 1 /\ verdict = "run"
 Same(e, f) == e.e = f.e /\ e.a = f.a /\ e.b = f.b /\ e.c = f.c
 RECURSIVE JoinNames(_)
 JoinNames(S) == IF S = {} THEN "" ELSE LET x == CHOOSE x \in S : TRUE IN x \o (IF S = {x} THEN "" ELSE "+" \o JoinNames(S \ {x}))
